@@ -463,6 +463,8 @@ class Daemon(object):
                             data.append(self.__transportableExceptionWrapper(serializer, xv))
                             break  # stop processing the rest of the batch
                         else:
+                            if getattr(method, "_pyroOneway", False):
+                                result = None   # a oneway method has no result for its caller, in a batch as little as in a call of its own
                             data.append(result)    # note that we don't support streaming results in batch mode
                     wasBatched = True
                 else:
